@@ -272,8 +272,7 @@ def check(run):
     calendar_oracle(run, drv, (('debug', dbg), ('release', rel)))
     alloc_oracle(run, L, dbg)
     wide_int_oracle(run, L, drv, (('debug', dbg), ('release', rel)))
-    if any(not v.get("no_failing_input_found") for v in run.violations):
-        run.violations = [v for v in run.violations if not v.get("no_failing_input_found")]
+    vlib.prefer_concrete(run)
     return vlib.finish(run, trusted_base=TB,
                        assumptions=["64-bit usize", "allocation bound is measured (counting allocator), not proved",
                                     "the transport reader (zvt/src/io.rs) is covered by C04"])
